@@ -13,6 +13,7 @@ import (
 	"encoding/json"
 	"fmt"
 	"os"
+	"reflect"
 )
 
 type verifReplayFile struct {
@@ -124,6 +125,11 @@ func verifUF1(name string, a int) int {
 }
 
 func verifTrackWrites(on bool) {}
+
+// verifMapOrderOne / verifDeepEqual: devices of the symbolic engine (C11 table writers)
+func verifMapOrderOne(on bool) {}
+
+func verifDeepEqual(a, b interface{}) bool { return reflect.DeepEqual(a, b) }
 
 // verifSymbolic is true only inside the symbolic engine
 func verifSymbolic() bool { return false }
